@@ -215,11 +215,10 @@ theorem insertAll_append (t l1 l2 : Table ν) :
     obtain ⟨x, d⟩ := e
     simp only [List.cons_append, insertAll, ih, List.append_assoc]
 
-theorem gather_eq (file : Nat) (xs : List ν) (t : Table ν) :
-    gather file xs t = insertAll t (xs.map fun x => (x, Decl.fn file x)) := by
+theorem gather_eq (xs t : Table ν) : gather xs t = insertAll t xs := by
   induction xs generalizing t with
   | nil => simp [gather, insertAll]
-  | cons x xs ih => simp only [gather, List.map_cons, insertAll, ih]
+  | cons e xs ih => obtain ⟨x, d⟩ := e; simp only [gather, insertAll, ih]
 
 
 /-! ### what a file is supplied with -/
@@ -284,7 +283,7 @@ theorem effective_eq (w : World ν) (file : Nat) :
     simp only
     obtain ⟨h1, h2⟩ := applyImports_eq w file f.imports
       { table := (insertAll (insertAll (builtinTable w) (preludeTable w)).1 (ownTable w file).1).1,
-        children := [], clashes := (insertAll (builtinTable w) (preludeTable w)).2 ++
+        kids := putAll [] (ownKids w file), clashes := (insertAll (builtinTable w) (preludeTable w)).2 ++
           (insertAll (insertAll (builtinTable w) (preludeTable w)).1 (ownTable w file).1).2, badImports := 0 }
     constructor
     · rw [h1, insertAll_append, insertAll_append]
@@ -319,21 +318,24 @@ def specQualified (w : World ν) (env : Table ν) (q x : ν) : Res ν :=
   memberOf w x (env.get q)
 
 mutual
-def specStmt (w : World ν) (env : Table ν) : Stmt ν → Table ν × List (Res ν)
+def specStmt (w : World ν) (kids : Table ν) (env : Table ν) : Stmt ν → Table ν × List (Res ν)
   | .letv x id => ((x, Decl.loc id) :: env, [])
   | .use x =>
     (env, [Res.ofOption (env.get x)])
   | .quse q x => (env, [specQualified w env q x])
-  | .block body => (env, (specStmts w env body).2)
-  | .forv x id body => (env, (specStmts w ((x, Decl.loc id) :: env) body).2)
-  | .matchv x id body => (env, (specStmts w ((x, Decl.loc id) :: env) body).2)
-  | .lam x id body => (env, (specStmts w ((x, Decl.loc id) :: env) body).2)
+  | .block body => (env, (specStmts w kids env body).2)
+  | .forv x id body => (env, (specStmts w kids ((x, Decl.loc id) :: env) body).2)
+  | .matchv x id body => (env, (specStmts w kids ((x, Decl.loc id) :: env) body).2)
+  | .lam x id body => (env, (specStmts w kids ((x, Decl.loc id) :: env) body).2)
+  -- a qualified pattern looks at the file's namespaces only; an expression at the environment
+  | .pmatch pre ty v => (env, [resolvePat w kids pre ty v])
+  | .euse pre ty v => (env, [enumExprWith w (fun y => env.get y) pre ty v])
 
-def specStmts (w : World ν) (env : Table ν) : List (Stmt ν) → Table ν × List (Res ν)
+def specStmts (w : World ν) (kids : Table ν) (env : Table ν) : List (Stmt ν) → Table ν × List (Res ν)
   | [] => (env, [])
   | s :: ss =>
-    let r := specStmt w env s
-    let r2 := specStmts w r.1 ss
+    let r := specStmt w kids env s
+    let r2 := specStmts w kids r.1 ss
     (r2.1, r.2 ++ r2.2)
 end
 
@@ -343,10 +345,10 @@ theorem resolveQualified_eq (w : World ν) (st : SymTab ν) (env : Table ν)
   simp only [resolveQualified, specQualified, h]
 
 mutual
-theorem resolveStmt_refines (w : World ν) (st : SymTab ν) (env : Table ν)
+theorem resolveStmt_refines (w : World ν) (kids : Table ν) (st : SymTab ν) (env : Table ν)
     (h : ∀ y, lookup st y = env.get y) : (s : Stmt ν) →
-    (resolveStmt w true st s).2 = (specStmt w env s).2 ∧
-      ∀ y, lookup (resolveStmt w true st s).1 y = (specStmt w env s).1.get y
+    (resolveStmt w true kids st s).2 = (specStmt w kids env s).2 ∧
+      ∀ y, lookup (resolveStmt w true kids st s).1 y = (specStmt w kids env s).1.get y
   | .letv x id => by
     refine ⟨rfl, fun y => ?_⟩
     simp only [resolveStmt, specStmt, lookup_extend, get_cons, h]
@@ -359,39 +361,43 @@ theorem resolveStmt_refines (w : World ν) (st : SymTab ν) (env : Table ν)
   | .block body => by
     refine ⟨?_, fun y => h y⟩
     simp only [resolveStmt, specStmt]
-    exact (resolveStmts_refines w (newScope st) env (fun y => by rw [lookup_newScope, h]) body).1
+    exact (resolveStmts_refines w kids (newScope st) env (fun y => by rw [lookup_newScope, h]) body).1
   | .forv x id body => by
     refine ⟨?_, fun y => h y⟩
     simp only [resolveStmt, specStmt, if_true]
-    exact (resolveStmts_refines w _ _ (fun y => by
+    exact (resolveStmts_refines w kids _ _ (fun y => by
       rw [lookup_extend, lookup_newScope, get_cons, h]) body).1
   | .matchv x id body => by
     refine ⟨?_, fun y => h y⟩
     simp only [resolveStmt, specStmt]
-    exact (resolveStmts_refines w _ _ (fun y => by
+    exact (resolveStmts_refines w kids _ _ (fun y => by
       rw [lookup_newScope, lookup_extend, lookup_newScope, get_cons, h]) body).1
   | .lam x id body => by
     refine ⟨?_, fun y => h y⟩
     simp only [resolveStmt, specStmt]
-    exact (resolveStmts_refines w _ _ (fun y => by
+    exact (resolveStmts_refines w kids _ _ (fun y => by
       rw [lookup_newScope, lookup_extend, lookup_newScope, get_cons, h]) body).1
+  | .pmatch pre ty v => ⟨rfl, fun y => h y⟩
+  | .euse pre ty v => by
+    refine ⟨?_, fun y => h y⟩
+    simp only [resolveStmt, specStmt, resolveEnumExpr]
+    have : lookup st = fun y => env.get y := funext h
+    rw [this]
 
-theorem resolveStmts_refines (w : World ν) (st : SymTab ν) (env : Table ν)
+theorem resolveStmts_refines (w : World ν) (kids : Table ν) (st : SymTab ν) (env : Table ν)
     (h : ∀ y, lookup st y = env.get y) : (ss : List (Stmt ν)) →
-    (resolveStmts w true st ss).2 = (specStmts w env ss).2 ∧
-      ∀ y, lookup (resolveStmts w true st ss).1 y = (specStmts w env ss).1.get y
+    (resolveStmts w true kids st ss).2 = (specStmts w kids env ss).2 ∧
+      ∀ y, lookup (resolveStmts w true kids st ss).1 y = (specStmts w kids env ss).1.get y
   | [] => ⟨rfl, fun y => h y⟩
   | s :: ss => by
-    obtain ⟨h1, h2⟩ := resolveStmt_refines w st env h s
-    obtain ⟨g1, g2⟩ := resolveStmts_refines w _ _ h2 ss
+    obtain ⟨h1, h2⟩ := resolveStmt_refines w kids st env h s
+    obtain ⟨g1, g2⟩ := resolveStmts_refines w kids _ _ h2 ss
     simp only [resolveStmts, specStmts]
     exact ⟨by rw [h1, g1], g2⟩
 end
 
-def declsOf (w : World ν) (file : Nat) : List ν :=
-  match w.files[file]? with
-  | some f => f.decls
-  | none => []
+/-- the names a file declares (functions, enums, interfaces) -/
+def declsOf (w : World ν) (file : Nat) : List ν := keys (ownEntries w file)
 
 theorem mem_keys_insertAll (t l : Table ν) (x : ν) :
     x ∈ keys (insertAll t l).1 ↔ x ∈ keys t ∨ x ∈ keys l := by
@@ -461,31 +467,14 @@ theorem nodup_keys_builtinTable (w : World ν) : (keys (builtinTable w)).Nodup :
 theorem mem_keys_ownTable (w : World ν) (m : Nat) (x : ν) :
     x ∈ keys (ownTable w m).1 ↔ x ∈ declsOf w m := by
   unfold ownTable declsOf
-  cases w.files[m]? with
-  | none => simp [keys]
-  | some f =>
-    simp only [gather_eq, mem_keys_insertAll]
-    simp [keys]
+  rw [gather_eq, mem_keys_insertAll]
+  simp [keys]
 
 theorem ownTable_get (w : World ν) (m : Nat) (x : ν) :
-    (ownTable w m).1.get x = if x ∈ declsOf w m then some (Decl.fn m x) else none := by
-  unfold ownTable declsOf
-  cases w.files[m]? with
-  | none => simp [get_nil]
-  | some f =>
-    simp only [gather_eq, insertAll_get, List.nil_append]
-    have : ∀ (ds : List ν), Table.get (ds.map fun y => (y, Decl.fn m y)) x =
-        if x ∈ ds then some (Decl.fn m x) else none := by
-      intro ds
-      induction ds with
-      | nil => simp [get_nil]
-      | cons y ys ih =>
-        simp only [List.map_cons, get_cons, ih, List.mem_cons]
-        by_cases h : y = x
-        · subst h; simp
-        · have h' : ¬ x = y := fun e => h e.symm
-          simp [h, h']
-    exact this f.decls
+    (ownTable w m).1.get x = Table.get (ownEntries w m) x := by
+  unfold ownTable
+  rw [gather_eq, insertAll_get]
+  rfl
 
 theorem mem_keys_preludeTable (w : World ν) (x : ν) : x ∈ keys (preludeTable w) ↔ x ∈ w.prelude := by
   simp [preludeTable, keys]
@@ -531,4 +520,395 @@ theorem mem_keys_supply (w : World ν) (file : Nat) (x : ν) :
     · exact Or.inl (Or.inl h)
     · exact Or.inl (Or.inr h)
     · exact Or.inr ⟨i, hi, by simpa [keys] using (mem_keys_importSupply w file i x).2 hx⟩
+
+/-! ### child namespaces -/
+
+theorem mem_keys_put (t : Table ν) (y : ν) (d : Decl ν) (x : ν) :
+    x ∈ keys (t.put y d) ↔ x ∈ keys t ∨ x = y := by
+  rw [← get_isSome_iff, get_put, ← get_isSome_iff]
+  by_cases h : y = x
+  · simp [h]
+  · have h' : ¬ x = y := fun e => h e.symm
+    simp [h, h']
+
+theorem mem_keys_putAll (t l : Table ν) (x : ν) :
+    x ∈ keys (putAll t l) ↔ x ∈ keys t ∨ x ∈ keys l := by
+  induction l generalizing t with
+  | nil => simp [putAll, keys]
+  | cons e l ih =>
+    obtain ⟨y, d⟩ := e
+    simp only [putAll, ih, mem_keys_put]
+    simp [keys]
+    constructor
+    · rintro ((h | h) | h)
+      · exact Or.inl h
+      · exact Or.inr (Or.inl h)
+      · exact Or.inr (Or.inr h)
+    · rintro (h | h | h)
+      · exact Or.inl (Or.inl h)
+      · exact Or.inl (Or.inr h)
+      · exact Or.inr h
+
+/-- names of the enums and interfaces a file declares -/
+def typeNames (w : World ν) (file : Nat) : List ν := keys (typeEntries w file)
+
+theorem mem_keys_ownKids (w : World ν) (m : Nat) (x : ν) :
+    x ∈ keys (ownKids w m) ↔ x ∈ typeNames w m := by
+  unfold ownKids typeNames
+  rw [mem_keys_putAll]
+  simp [keys]
+
+theorem typeNames_sub_declsOf (w : World ν) (m : Nat) (x : ν) (h : x ∈ typeNames w m) :
+    x ∈ declsOf w m := by
+  unfold declsOf ownEntries typeNames at *
+  simp only [keys, List.map_append, List.mem_append] at *
+  exact Or.inr h
+
+/-- the child namespaces an import item brings along, as the property states it: those of the
+    enums / interfaces whose *declaration* the item makes visible (same filter), or the prefix -/
+def kidVisibleThrough (w : World ν) : Import ν → ν → Prop
+  | .glob m, x => x ∈ typeNames w m
+  | .incl m l, x => x ∈ typeNames w m ∧ x ∈ l
+  | .excl m l, x => x ∈ typeNames w m ∧ x ∉ l
+  | .as_ _ p, x => x = p
+  | .missing, _ => False
+
+theorem kidVisibleThrough_iff (w : World ν) (i : Import ν) (x : ν) :
+    kidVisibleThrough w i x ↔ visibleThrough w i x ∧
+      (match i with
+       | .glob m | .incl m _ | .excl m _ => x ∈ typeNames w m
+       | _ => True) := by
+  cases i with
+  | glob m => simp only [kidVisibleThrough, visibleThrough]; exact ⟨fun h => ⟨typeNames_sub_declsOf w m x h, h⟩, fun h => h.2⟩
+  | incl m l =>
+    simp only [kidVisibleThrough, visibleThrough]
+    exact ⟨fun h => ⟨⟨typeNames_sub_declsOf w m x h.1, h.2⟩, h.1⟩, fun h => ⟨h.2, h.1.2⟩⟩
+  | excl m l =>
+    simp only [kidVisibleThrough, visibleThrough]
+    exact ⟨fun h => ⟨⟨typeNames_sub_declsOf w m x h.1, h.2⟩, h.1⟩, fun h => ⟨h.2, h.1.2⟩⟩
+  | as_ m p => simp [kidVisibleThrough, visibleThrough]
+  | missing => simp [kidVisibleThrough, visibleThrough]
+
+theorem applyImport_kids (w : World ν) (file : Nat) (e : Eff ν) (i : Import ν) (x : ν) :
+    x ∈ keys (applyImport w file e i).kids ↔ x ∈ keys e.kids ∨ kidVisibleThrough w i x := by
+  cases i with
+  | glob m => simp only [applyImport, mem_keys_putAll, mem_keys_ownKids, kidVisibleThrough]
+  | incl m l =>
+    simp only [applyImport, mem_keys_putAll, kidVisibleThrough]
+    rw [mem_keys_filter (ownKids w m) (fun y => l.contains y), mem_keys_ownKids]
+    simp
+  | excl m l =>
+    simp only [applyImport, mem_keys_putAll, kidVisibleThrough]
+    rw [mem_keys_filter (ownKids w m) (fun y => !l.contains y), mem_keys_ownKids]
+    simp
+  | as_ m p => simp only [applyImport, mem_keys_put, kidVisibleThrough]
+  | missing => simp [applyImport, kidVisibleThrough]
+
+theorem applyImports_kids (w : World ν) (file : Nat) (is : List (Import ν)) (e : Eff ν) (x : ν) :
+    x ∈ keys (applyImports w file is e).kids ↔ x ∈ keys e.kids ∨ ∃ i ∈ is, kidVisibleThrough w i x := by
+  induction is generalizing e with
+  | nil => simp [applyImports]
+  | cons i is ih =>
+    simp only [applyImports, ih, applyImport_kids, List.mem_cons]
+    constructor
+    · rintro ((h | h) | ⟨j, hj, hx⟩)
+      · exact Or.inl h
+      · exact Or.inr ⟨i, Or.inl rfl, h⟩
+      · exact Or.inr ⟨j, Or.inr hj, hx⟩
+    · rintro (h | ⟨j, hj | hj, hx⟩)
+      · exact Or.inl (Or.inl h)
+      · subst hj; exact Or.inl (Or.inr hx)
+      · exact Or.inr ⟨j, hj, hx⟩
+
+theorem effective_kids (w : World ν) (file : Nat) (x : ν) :
+    x ∈ keys (effective w file).kids ↔
+      x ∈ typeNames w file ∨ ∃ i ∈ importsOf w file, kidVisibleThrough w i x := by
+  unfold effective importsOf
+  cases hf : w.files[file]? with
+  | none =>
+    simp only [mem_keys_putAll, mem_keys_ownKids]
+    simp [keys]
+  | some f =>
+    simp only [applyImports_kids, mem_keys_putAll, mem_keys_ownKids]
+    simp [keys]
+
+/-! ### child namespaces follow the declarations when nothing clashes -/
+
+/-- declarations that own a child namespace -/
+def isNs : Decl ν → Bool
+  | .enum_ .. => true
+  | .iface .. => true
+  | .alias .. => true
+  | _ => false
+
+/-- keep a declaration only if it owns a namespace -/
+def nsOnly : Option (Decl ν) → Option (Decl ν)
+  | some d => if isNs d then some d else none
+  | none => none
+
+theorem putAll_get_of_disjoint (t l : Table ν) (hnd : (keys l).Nodup)
+    (hdis : ∀ x ∈ keys l, x ∉ keys t) (x : ν) :
+    (putAll t l).get x = (t ++ l).get x := by
+  induction l generalizing t with
+  | nil => simp [putAll]
+  | cons e l ih =>
+    obtain ⟨y, d⟩ := e
+    have hnd' : y ∉ keys l ∧ (keys l).Nodup := by
+      have := hnd; simp only [keys, List.map_cons] at this; exact List.nodup_cons.1 this
+    have hy : y ∉ keys t := hdis y (by simp [keys])
+    simp only [putAll]
+    rw [ih (t.put y d) hnd'.2 (fun z hz => by
+      rw [mem_keys_put]; rintro (h | h)
+      · exact hdis z (by simp [keys] at hz ⊢; exact Or.inr hz) h
+      · subst h; exact hnd'.1 hz)]
+    rw [get_append, get_append, get_put, get_cons]
+    by_cases hyx : y = x
+    · subst hyx
+      simp [(get_eq_none_iff t y).2 hy]
+    · simp [hyx]
+
+theorem nodup_keys_putAll (t l : Table ν) (h : (keys t).Nodup) : (keys (putAll t l)).Nodup := by
+  induction l generalizing t with
+  | nil => exact h
+  | cons e l ih => obtain ⟨y, d⟩ := e; exact ih _ (nodup_keys_put t h y d)
+
+theorem nodup_keys_filter (t : Table ν) (p : ν × Decl ν → Bool) (h : (keys t).Nodup) :
+    (keys (t.filter p)).Nodup :=
+  List.Nodup.sublist (List.Sublist.map _ List.filter_sublist) h
+
+theorem typeEntriesAux_isNs (file : Nat) (i : Nat) (ts : List (TypeD ν)) :
+    ∀ e ∈ typeEntriesAux file i ts, isNs e.2 = true := by
+  induction ts generalizing i with
+  | nil => intro e he; cases he
+  | cons t ts ih =>
+    intro e he
+    simp only [typeEntriesAux, List.mem_cons] at he
+    rcases he with rfl | he
+    · simp only [typeDecl]; split <;> rfl
+    · exact ih _ e he
+
+theorem typeEntries_isNs (w : World ν) (m : Nat) : ∀ e ∈ typeEntries w m, isNs e.2 = true := by
+  unfold typeEntries
+  cases w.files[m]? with
+  | none => intro e he; cases he
+  | some f => exact typeEntriesAux_isNs m 0 f.types
+
+theorem get_isNs_of_all (l : Table ν) (h : ∀ e ∈ l, isNs e.2 = true) (x : ν) :
+    nsOnly (l.get x) = l.get x := by
+  induction l with
+  | nil => rfl
+  | cons e l ih =>
+    obtain ⟨y, d⟩ := e
+    simp only [get_cons]
+    by_cases hyx : y = x
+    · have := h (y, d) (by simp); simp at this; simp [hyx, nsOnly, this]
+    · simp only [hyx, if_false]; exact ih (fun e he => h e (by simp [he]))
+
+theorem fnEntries_get (w : World ν) (m : Nat) (x : ν) (d : Decl ν) (h : (fnEntries w m).get x = some d) :
+    isNs d = false := by
+  unfold fnEntries at h
+  cases hf : w.files[m]? with
+  | none => simp [hf, get_nil] at h
+  | some f =>
+    simp only [hf] at h
+    have : ∀ (ds : List ν), Table.get (ds.map fun y => (y, Decl.fn m y)) x = some d → isNs d = false := by
+      intro ds
+      induction ds with
+      | nil => intro h; simp [get_nil] at h
+      | cons y ys ih =>
+        simp only [List.map_cons, get_cons]
+        by_cases hyx : y = x
+        · simp [hyx]; rintro rfl; rfl
+        · simpa [hyx] using ih
+    exact this _ h
+
+/-- inside one file without duplicate names: the child namespace called `x` is the one of the
+    file's declaration `x` -/
+theorem ownKids_get (w : World ν) (m : Nat) (hnd : (keys (ownEntries w m)).Nodup) (x : ν) :
+    (ownKids w m).get x = nsOnly ((ownTable w m).1.get x) := by
+  have hsplit : keys (ownEntries w m) = keys (fnEntries w m) ++ keys (typeEntries w m) := by
+    simp [ownEntries, keys]
+  rw [hsplit] at hnd
+  have hn := List.nodup_append.1 hnd
+  unfold ownKids
+  rw [putAll_get_of_disjoint [] _ hn.2.1 (fun _ _ h => by simp [keys] at h), List.nil_append,
+      ownTable_get, ownEntries, get_append]
+  cases hf : (fnEntries w m).get x with
+  | some d =>
+    have hx : x ∈ keys (fnEntries w m) := (get_isSome_iff _ _).1 (by simp [hf])
+    have : x ∉ keys (typeEntries w m) := fun h => hn.2.2 x hx x h rfl
+    simp [(get_eq_none_iff _ _).2 this, nsOnly, fnEntries_get w m x d hf]
+  | none =>
+    simp only
+    exact (get_isNs_of_all _ (typeEntries_isNs w m) x).symm
+
+theorem nodup_keys_ownKids (w : World ν) (m : Nat) : (keys (ownKids w m)).Nodup :=
+  nodup_keys_putAll [] _ (by simp [keys])
+
+/-- the child namespaces one import item adds, as a table -/
+def kidSupply (w : World ν) (file : Nat) : Import ν → Table ν
+  | .glob m => ownKids w m
+  | .incl m names => (ownKids w m).filter (fun c => names.contains c.1)
+  | .excl m names => (ownKids w m).filter (fun c => !names.contains c.1)
+  | .as_ m p => [(p, Decl.alias file p m)]
+  | .missing => []
+
+theorem applyImport_kids_eq (w : World ν) (file : Nat) (e : Eff ν) (i : Import ν) :
+    (applyImport w file e i).kids = putAll e.kids (kidSupply w file i) := by
+  cases i <;> simp [applyImport, kidSupply, putAll]
+
+theorem kidSupply_get (w : World ν) (file : Nat) (hown : ∀ m, (keys (ownEntries w m)).Nodup)
+    (i : Import ν) (x : ν) :
+    (kidSupply w file i).get x = nsOnly ((importSupply w file i).get x) := by
+  cases i with
+  | glob m => simp only [kidSupply, importSupply]; exact ownKids_get w m (hown m) x
+  | incl m l =>
+    simp only [kidSupply, importSupply]
+    rw [get_filter (ownKids w m) (fun y => l.contains y), get_filter (ownTable w m).1 (fun y => l.contains y)]
+    split
+    · exact ownKids_get w m (hown m) x
+    · rfl
+  | excl m l =>
+    simp only [kidSupply, importSupply]
+    rw [get_filter (ownKids w m) (fun y => !l.contains y), get_filter (ownTable w m).1 (fun y => !l.contains y)]
+    split
+    · exact ownKids_get w m (hown m) x
+    · rfl
+  | as_ m p =>
+    simp only [kidSupply, importSupply, get_cons, get_nil]
+    split <;> simp [nsOnly, isNs]
+  | missing => simp [kidSupply, importSupply, get_nil, nsOnly]
+
+theorem kidSupply_nodup (w : World ν) (file : Nat) (i : Import ν) : (keys (kidSupply w file i)).Nodup := by
+  cases i with
+  | glob m => exact nodup_keys_ownKids w m
+  | incl m l => exact nodup_keys_filter _ _ (nodup_keys_ownKids w m)
+  | excl m l => exact nodup_keys_filter _ _ (nodup_keys_ownKids w m)
+  | as_ m p => simp [kidSupply, keys]
+  | missing => simp [kidSupply, keys]
+
+theorem kidSupply_keys_sub (w : World ν) (file : Nat) (hown : ∀ m, (keys (ownEntries w m)).Nodup)
+    (i : Import ν) (x : ν) (h : x ∈ keys (kidSupply w file i)) : x ∈ keys (importSupply w file i) := by
+  rw [← get_isSome_iff] at h ⊢
+  rw [kidSupply_get w file hown] at h
+  cases hg : (importSupply w file i).get x with
+  | none => simp [hg, nsOnly] at h
+  | some d => simp
+
+/-- the invariant carried along the import list: the namespaces agree with the namespace-owning
+    declarations supplied so far -/
+theorem applyImports_kids_get (w : World ν) (file : Nat) (hown : ∀ m, (keys (ownEntries w m)).Nodup)
+    (is : List (Import ν)) (e : Eff ν) (S : Table ν)
+    (hinv : ∀ x, e.kids.get x = nsOnly (S.get x))
+    (hnd : (keys (S ++ is.flatMap (importSupply w file))).Nodup) (x : ν) :
+    (applyImports w file is e).kids.get x = nsOnly ((S ++ is.flatMap (importSupply w file)).get x) := by
+  induction is generalizing e S with
+  | nil => simpa [applyImports] using hinv x
+  | cons i is ih =>
+    simp only [applyImports, List.flatMap_cons]
+    rw [← List.append_assoc]
+    have hnd' : (keys ((S ++ importSupply w file i) ++ is.flatMap (importSupply w file))).Nodup := by
+      simpa [List.flatMap_cons, List.append_assoc] using hnd
+    apply ih _ _ _ hnd'
+    intro y
+    rw [applyImport_kids_eq]
+    -- keys of the new piece are fresh with respect to what is there
+    have hSi : (keys (S ++ importSupply w file i)).Nodup := by
+      have : (keys (S ++ importSupply w file i)).Sublist (keys ((S ++ importSupply w file i) ++ is.flatMap (importSupply w file))) := by
+        simp only [keys, List.map_append]; exact List.sublist_append_left _ _
+      exact List.Nodup.sublist this hnd'
+    have hdisS : ∀ z ∈ keys (importSupply w file i), z ∉ keys S := by
+      intro z hz hzS
+      simp only [keys, List.map_append] at hSi
+      exact (List.nodup_append.1 hSi).2.2 z hzS z hz rfl
+    have hkS : ∀ z, z ∈ keys e.kids → z ∈ keys S := by
+      intro z hz
+      rw [← get_isSome_iff] at hz ⊢
+      rw [hinv z] at hz
+      cases hg : S.get z with
+      | none => simp [hg, nsOnly] at hz
+      | some d => simp
+    rw [putAll_get_of_disjoint _ _ (kidSupply_nodup w file i)
+          (fun z hz hk => hdisS z (kidSupply_keys_sub w file hown i z hz) (hkS z hk)),
+        get_append, get_append, hinv y, kidSupply_get w file hown]
+    cases hS : S.get y with
+    | none => simp [nsOnly]
+    | some d =>
+      have hyS : y ∈ keys S := (get_isSome_iff _ _).1 (by simp [hS])
+      have hyT : (importSupply w file i).get y = none :=
+        (get_eq_none_iff _ _).2 (fun h => hdisS y h hyS)
+      by_cases hd : isNs d = true
+      · simp [nsOnly, hd]
+      · simp [nsOnly, hd, hyT]
+
+theorem builtin_prelude_not_ns (w : World ν) (x : ν) (d : Decl ν)
+    (h : (builtinTable w ++ preludeTable w).get x = some d) : isNs d = false := by
+  rw [get_append] at h
+  cases hb : (builtinTable w).get x with
+  | some b =>
+    simp only [hb] at h; cases h
+    -- a builtin entry is a `builtin` declaration
+    have : ∀ (xs : List ν) (t : Table ν), (∀ y e, t.get y = some e → isNs e = false) →
+        ∀ y e, (xs.foldl (fun t z => t.put z (Decl.builtin z)) t).get y = some e → isNs e = false := by
+      intro xs
+      induction xs with
+      | nil => intro t ht; exact ht
+      | cons z zs ih =>
+        intro t ht
+        apply ih
+        intro y e hy
+        rw [get_put] at hy
+        split at hy
+        · cases hy; rfl
+        · exact ht y e hy
+    exact this w.builtins [] (fun y e hy => by simp [get_nil] at hy) x _ hb
+  | none =>
+    simp only [hb] at h
+    unfold preludeTable at h
+    have : ∀ (ps : List ν), Table.get (ps.map fun z => (z, Decl.prelude z)) x = some d → isNs d = false := by
+      intro ps
+      induction ps with
+      | nil => intro h; simp [get_nil] at h
+      | cons z zs ih =>
+        simp only [List.map_cons, get_cons]
+        by_cases hz : z = x
+        · simp [hz]; rintro rfl; rfl
+        · simpa [hz] using ih
+    exact this _ h
+
+theorem effective_kids_get (w : World ν) (file : Nat) (hown : ∀ m, (keys (ownEntries w m)).Nodup)
+    (hnd : (keys (builtinTable w ++ supply w file)).Nodup) (x : ν) :
+    (effective w file).kids.get x = nsOnly ((effective w file).table.get x) := by
+  rw [(effective_eq w file).1, insertAll_get]
+  have hsup : builtinTable w ++ supply w file =
+      ((builtinTable w ++ preludeTable w) ++ (ownTable w file).1) ++ (importsOf w file).flatMap (importSupply w file) := by
+    simp [supply, List.append_assoc]
+  rw [hsup] at hnd ⊢
+  have hbase : ∀ y, (putAll [] (ownKids w file)).get y =
+      nsOnly (((builtinTable w ++ preludeTable w) ++ (ownTable w file).1).get y) := by
+    intro y
+    have hnd0 : (keys ((builtinTable w ++ preludeTable w) ++ (ownTable w file).1)).Nodup := by
+      have : (keys ((builtinTable w ++ preludeTable w) ++ (ownTable w file).1)).Sublist
+          (keys (((builtinTable w ++ preludeTable w) ++ (ownTable w file).1) ++ (importsOf w file).flatMap (importSupply w file))) := by
+        simp only [keys, List.map_append]; exact List.sublist_append_left _ _
+      exact List.Nodup.sublist this hnd
+    rw [putAll_get_of_disjoint [] _ (nodup_keys_ownKids w file) (fun _ _ h => by simp [keys] at h),
+        List.nil_append, ownKids_get w file (hown file), get_append]
+    cases hb : (builtinTable w ++ preludeTable w).get y with
+    | none => rfl
+    | some d =>
+      have hy : y ∈ keys (builtinTable w ++ preludeTable w) := (get_isSome_iff _ _).1 (by simp [hb])
+      have hno : y ∉ keys (ownTable w file).1 := by
+        intro h
+        simp only [keys, List.map_append] at hnd0
+        exact (List.nodup_append.1 hnd0).2.2 y (by simpa [keys] using hy) y h rfl
+      simp [(get_eq_none_iff _ _).2 hno, nsOnly, builtin_prelude_not_ns w y d hb]
+  unfold effective importsOf at *
+  cases hf : w.files[file]? with
+  | none =>
+    simp only [hf, List.flatMap_nil, List.append_nil] at hnd ⊢
+    exact hbase x
+  | some f =>
+    simp only [hf] at hnd ⊢
+    exact applyImports_kids_get w file hown f.imports _ _ hbase hnd x
 end Abra.Names
